@@ -10,6 +10,7 @@ import (
 	"fmt"
 	"math/big"
 	"os"
+	"runtime"
 	"strconv"
 	"sync"
 )
@@ -216,3 +217,13 @@ func Dyadic(name string, fracBits int, maxAbs int64) float64 {
 	}
 	return float64(v.Int64()) / float64(int64(1)<<uint(fracBits))
 }
+
+// Yield is a scheduling point inside harness code (the executor may switch
+// goroutines here; natively runtime.Gosched).
+func Yield() { runtime.Gosched() }
+
+// ExploreSchedules brackets the concurrent section of a harness: while on
+// (and the executor runs with -explore-sched) every interleaving of the
+// synchronisation operations within the preemption bound is explored;
+// elsewhere goroutines run deterministically. No native effect.
+func ExploreSchedules(on bool) {}
